@@ -105,6 +105,14 @@ func GenRunning(t *rapid.T) *RunningCase {
 		c.Handlers = append(c.Handlers, RunH{Seq: rapid.IntRange(0, 2).Draw(t, "seq") != 0, Ctx: rapid.Bool().Draw(t, "ctx"), WorkMs: rapid.SampledFrom([]int{1, 3, 10, 40}).Draw(t, "work")})
 	}
 	c.CancelMs = rapid.IntRange(0, 60).Draw(t, "cancelAt")
+	if rapid.Bool().Draw(t, "aligned") {
+		// the cancellation falls on the instant a handler invocation ends
+		h := c.Handlers[rapid.IntRange(0, n-1).Draw(t, "alignedTo")]
+		c.CancelMs = h.WorkMs * rapid.IntRange(1, 3).Draw(t, "alignedK")
+	}
+	if rapid.IntRange(0, 2).Draw(t, "hasTail") != 0 {
+		c.Tail = rapid.IntRange(1, 3).Draw(t, "tail")
+	}
 	return c
 }
 
